@@ -262,6 +262,19 @@ def run_check(ck, pkt, key):
         return type(e).__name__, False
 
 
+def run_check_reused(ck, bufp, bufk, pkt, key):
+    """Checker.check with the caller's two long-lived list objects, overwritten in place for every call
+    (an application filling one buffer per packet): the answer may depend on the contents only."""
+    bufp[:] = real_name(pkt)
+    bufk[:] = real_name(key)
+    try:
+        return 'ok', bool(ck.check(bufp, bufk))
+    except RecursionError:
+        return 'RecursionError', False
+    except Exception as e:  # noqa
+        return type(e).__name__, False
+
+
 def reload(ck):
     return lvs().Checker.load(ck.save(), user_fns())
 
@@ -278,7 +291,7 @@ class Gen:
     permutation, constrained patterns occur in the expanded name of the constraining rule (temporaries:
     in its own text), option/argument patterns are named patterns occurring in some rule name."""
 
-    def __init__(self, rng, max_rules=6, max_len=4, signing=0.5, p_forward=0.15, p_redef=0.18, p_twin=0.5, force_twin=0.0):
+    def __init__(self, rng, max_rules=6, max_len=4, signing=0.5, p_forward=0.15, p_redef=0.18, p_twin=0.5, force_twin=0.0, carried=0.0):
         self.rng = rng
         self.max_rules = max_rules
         self.max_len = max_len
@@ -287,6 +300,7 @@ class Gen:
         self.p_redef = p_redef
         self.p_twin = p_twin
         self.force_twin = force_twin
+        self.carried = carried
 
     def schema(self):
         rng = self.rng
@@ -342,6 +356,27 @@ class Gen:
                     other = [q for q in later if q not in src['sign']]
                     if other and set(r['sign']) <= set(src['sign']):      # the twin brings a signer of its own
                         r['sign'] = sorted(set(r['sign']) | {rng.choice(other)})
+            if rng.random() < self.carried:
+                # a signer rule K of D whose constraints name a pattern q that only D's name binds: K matches a key
+                # name only with the bindings carried over from the packet ({p: q} or {p: $eq(q)} in every set)
+                cands = []
+                for d in rules:
+                    for kid in d['sign']:
+                        qs = [q for q in sorted(self.pats.get(d['id'], ())) if q not in self.pats.get(kid, ())]
+                        qs = [q for q in qs if any(i['k'] == 'p' and i['p'] == q for i in d['name'])] or qs
+                        for k in rules:
+                            ps = [i['p'] for i in k['name'] if i['k'] == 'p']
+                            if k['id'] == kid and qs and ps and self.minlen.get(kid, 9) <= 3 and self.minlen.get(d['id'], 9) <= 3:
+                                cands.append((k, ps, qs))
+                if cands:
+                    k, ps, qs = rng.choice(cands)
+                    p_, q_ = rng.choice(ps), rng.choice(qs)
+                    c = CONS(p_, P(q_) if rng.random() < 0.5 else F('$eq', P(q_)))
+                    if k['cons']:
+                        for cs in k['cons']:
+                            cs.append(json.loads(json.dumps(c)))
+                    else:
+                        k['cons'].append([c])
             if rng.random() < self.force_twin:
                 # make sure there is a twin definition whose signer the earlier definitions do not have
                 short = lambda q: self.minlen.get(q, 9) <= 3
